@@ -409,7 +409,7 @@ func genVerifyCase(t *rapid.T) VerifyCase {
 
 var specC12Verify = Register(&Spec[VerifyCase]{
 	Prop: "C12", Name: "verify",
-	Rule: "(content, recorded hash) pairs; the entry comes from a Checksums-Sha256 / Checksums-Sha512 field parsed into []SHA256FileHash / []SHA512FileHash, from control.BestChecksums with only the 256 field, only the 512 field or both present (via Checksums()), or from FileHashFromHasher over any of the four hashers (md5, sha1, sha256, sha512); the recorded hash is the true digest, the digest of other content, one flipped nibble, truncated (even / odd length), the other algorithm's digest of the same content, or upper-case hex; the entry's Size column equals the stream length or is off by -1, +1, -5, +100 or far less, and in some cases the stream is the recorded content followed by 1..4096 further bytes. Oracle (the digest decides, not the size column): the entry's Algorithm is that of the field it came from; writing the content in chunks and Close() returns nil iff digest_{entry algorithm}(content) == recorded hash (a malformed hex string may already be rejected by Verifier()). An entry built from an md5 or sha1 hasher is an entry built from a hasher like any other (Verifier() used to end the process with log.Fatalf for it - F52); md5/sha1 entries parsed from Files / Checksums-Sha1 fields are not named by the statement and not generated. Non-trivial: hash wrong in exactly one nibble, right under the wrong algorithm, or true with content in >= 2 chunks; distinct by case.",
+	Rule: "(content, recorded hash) pairs; the entry comes from a Checksums-Sha256 / Checksums-Sha512 field parsed into []SHA256FileHash / []SHA512FileHash, from control.BestChecksums with only the 256 field, only the 512 field or both present (via Checksums()), or from FileHashFromHasher over any of the four hashers (md5, sha1, sha256, sha512); the recorded hash is the true digest, the digest of other content, one flipped nibble, truncated (even / odd length), the other algorithm's digest of the same content, or upper-case hex; the entry's Size column equals the stream length or is off by -1, +1, -5, +100 or far less, and in some cases the stream is the recorded content followed by 1..4096 further bytes. Oracle (the digest decides, not the size column; parsing the line into a variable that held other entries gives the same entry, a rejected line leaves the variable empty): the entry's Algorithm is that of the field it came from; writing the content in chunks and Close() returns nil iff digest_{entry algorithm}(content) == recorded hash (a malformed hex string may already be rejected by Verifier()). An entry built from an md5 or sha1 hasher is an entry built from a hasher like any other (Verifier() used to end the process with log.Fatalf for it - F52); md5/sha1 entries parsed from Files / Checksums-Sha1 fields are not named by the statement and not generated. Non-trivial: hash wrong in exactly one nibble, right under the wrong algorithm, or true with content in >= 2 chunks; distinct by case.",
 	Check: func(c VerifyCase, r *Recorder) error {
 		algo := "sha256"
 		switch c.Source {
@@ -469,6 +469,26 @@ var specC12Verify = Register(&Spec[VerifyCase]{
 				return errf("cannot parse Checksums-Sha256 %q: %v", line, err)
 			}
 			fh = s.Sums[0].FileHash
+			// the same line through the entry's own method, into a variable that held another entry
+			// (and a two-column one) before: nothing of those may survive; a rejected line leaves nothing
+			used := control.SHA256FileHash{}
+			fresh2 := control.SHA256FileHash{}
+			_ = fresh2.UnmarshalControl("/etc/conffile bbbb")
+			_ = used.UnmarshalControl("aaaa 12 first.dsc")
+			if err := used.UnmarshalControl("/etc/conffile bbbb"); err != nil || used != fresh2 {
+				return errf("a two-column line parsed into a SHA256FileHash that held a three-column entry gives %+v (err %v), into a fresh one %+v", used.FileHash, err, fresh2.FileHash)
+			}
+			if err := used.UnmarshalControl(strings.TrimSpace(line)); err != nil || used.FileHash != fh {
+				return errf("UnmarshalControl(%q) into a used SHA256FileHash gives %+v (err %v), a fresh one %+v", line, used.FileHash, err, fh)
+			}
+			if err := used.UnmarshalControl("cccc notanumber third.dsc"); err == nil || used.FileHash != (control.FileHash{}) {
+				return errf("UnmarshalControl of a malformed line returned %v and left %+v in the receiver", err, used.FileHash)
+			}
+			ch := control.FileListChangesFileHash{}
+			_ = ch.UnmarshalControl("aaaa 12 devel optional first.dsc")
+			if err := ch.UnmarshalControl("bbbb x devel optional second.dsc"); err == nil || ch != (control.FileListChangesFileHash{}) {
+				return errf("FileListChangesFileHash.UnmarshalControl of a malformed line returned %v and left %+v in the receiver", err, ch)
+			}
 		case "field512":
 			var s sha512Field
 			if err := control.Unmarshal(&s, strings.NewReader("Checksums-Sha512:\n"+line)); err != nil || len(s.Sums) != 1 {
